@@ -308,6 +308,70 @@ Fixpoint run (arms : list arm) (fuel : nat) (e : env) (st : state) : list visit 
       end
   end.
 
+(* ------------------------------------------------------------------ scoping *)
+(* The interpreter keeps ONE environment for the whole run (`*call_env = arm_env`): variables bound by
+   the pattern of one arm stay visible in later iterations.  [run_lex] is the lexically scoped reading
+   (every iteration starts from the environment of the machine's inputs); [well_scoped] is the
+   condition under which the two coincide (Proofs/FsmP.v, lexical_scoping): every arm uses only the
+   variables of its own pattern and machine inputs that no pattern anywhere rebinds. *)
+Fixpoint run_lex (arms : list arm) (fuel : nat) (e0 : env) (st : state) : list visit * outcome :=
+  match fuel with
+  | O => ([], OLimit st)
+  | S f =>
+      match select e0 st arms 0 with
+      | SelNone => ([Visit st None], OStuck)
+      | SelErr => ([Visit st None], OErr)
+      | Sel i g e' (TOut x) =>
+          match eval e' x with
+          | Ok v => ([Visit st (Some (i, g))], ODone v)
+          | Err => ([Visit st (Some (i, g))], OErr)
+          end
+      | Sel i g e' (TNext s xs) =>
+          match eval_list e' xs with
+          | Ok vs => let (tr, o) := run_lex arms f e0 (s, vs) in (Visit st (Some (i, g)) :: tr, o)
+          | Err => ([Visit st (Some (i, g))], OErr)
+          end
+      end
+  end.
+
+Definition atom_fv (a : atom) : list string := match a with AVar x => [x] | ALit _ => [] end.
+
+Fixpoint expr_fv (x : expr) : list string :=
+  match x with
+  | EAtom a => atom_fv a
+  | EAdd a b | ESub a b | EMul a b => expr_fv a ++ expr_fv b
+  | EArr items => flat_map atom_fv items
+  end.
+
+Fixpoint guard_fv (g : guard) : list string :=
+  match g with
+  | GWild => []
+  | GCmp _ a b => expr_fv a ++ expr_fv b
+  | GAnd g h | GOr g h => guard_fv g ++ guard_fv h
+  | GNot g => guard_fv g
+  end.
+
+Definition target_fv (t : target) : list string :=
+  match t with TNext _ xs => flat_map expr_fv xs | TOut x => expr_fv x end.
+
+Definition arm_pat_vars (a : arm) : list string := flat_map pat_vars (a_pats a).
+
+(* machine inputs that no pattern of the declaration rebinds *)
+Definition free_inputs (inputs : list string) (arms : list arm) : list string :=
+  filter (fun x => negb (memb x (flat_map arm_pat_vars arms))) inputs.
+
+Definition fv_ok (a : arm) (u : list string) (fv : list string) : bool :=
+  forallb (fun x => orb (memb x (arm_pat_vars a)) (memb x u)) fv.
+
+Definition arm_scoped (u : list string) (a : arm) : bool :=
+  match a_body a with
+  | BT t => fv_ok a u (target_fv t)
+  | BG gs => forallb (fun gt => andb (fv_ok a u (guard_fv (fst gt))) (fv_ok a u (target_fv (snd gt)))) gs
+  end.
+
+Definition well_scoped (d : decl) : bool :=
+  forallb (arm_scoped (free_inputs (map fst (d_inputs d)) (d_arms d))) (d_arms d).
+
 (* ------------------------------------------------------- invocation arguments *)
 Inductive arg : Type :=
 | AS (k : string) (z : Z)                         (* scalar of kind k (payload as canon prints it) *)
@@ -937,10 +1001,13 @@ Definition judge_case (c : case) (ob : fobs) : sx :=
         | OStuck => if run_matchb tr o ob then v_adv "stuck" else v_bad "stuck-mismatch" (expected_sx tr o)
         | ODone v =>
             if run_matchb tr o ob
-            then (if value_has_out (c_decl c) v then v_ok "value" else v_adv "output-kind-undeclared")
+            then (if negb (well_scoped (c_decl c)) then v_adv "ill-scoped"
+                  else if value_has_out (c_decl c) v then v_ok "value" else v_adv "output-kind-undeclared")
             else v_bad "run-mismatch" (expected_sx tr o)
         | OLimit _ =>
-            if run_matchb tr o ob then v_ok "limit" else v_bad "limit-mismatch" (expected_sx tr o)
+            if run_matchb tr o ob
+            then (if negb (well_scoped (c_decl c)) then v_adv "ill-scoped" else v_ok "limit")
+            else v_bad "limit-mismatch" (expected_sx tr o)
         end
   end.
 
